@@ -9,7 +9,7 @@
    (4) for the sub-rectangle layout (model run against Face3D.sub_rects_from_rect_ratio): in every branch the rectangle areas
        total ratio x parent area, the array lies inside the parent rectangle, columns and rows do not overlap (ratio <= 0.95).
    Global non-self-intersection of offsets, rectangle extraction and sub_rects_from_rect_dimensions are validated only. *)
-From LBG Require Import Base QGeom ListCyc G0_vec G1_shapes G2_inter G3_poly C02_kernels C01_area SubOffset C19_sub.
+From LBG Require Import Base QGeom ListCyc G0_vec G1_shapes G2_inter G3_poly G11_sub C02_kernels C01_area SubOffset C19_sub C19_offset.
 Open Scope Q_scope.
 
 Theorem C19_offset_vertex_at_distance_d : forall u1 c s d, dot2 u1 u1 == 1 -> c * c + s * s == 1 -> ~ s == 0 ->
@@ -52,9 +52,48 @@ Theorem C19_sub_rects_inside_and_disjoint : forall base height ratio srh0 sill0 
 Proof. intros. apply rects_ratio_inside; assumption. Qed.
 Print Assumptions C19_sub_rects_inside_and_disjoint.
 
+(* the same two facts about the GENERATED Polygon2D.offset (translated from the source on every run; cos / sin / sqrt / acos are
+   the runtime's, explicit parameters): (B) for a counter-clockwise loop without repeated consecutive vertices and d <> 0 the
+   method moves vertex i by exactly off_vec; (A) that vector - normalize(rotate(v1, -a)) * (d / sin a) - puts the vertex at signed
+   distance d from both adjacent edges (r1 = |v1|, mu*r1 = |v2|), whenever cos^2 + sin^2 = 1 and sin(-a) = -sin a at the half angle,
+   sqrt squares back at |v1|^2, and a is half the clockwise angle from v1 to v2 *)
+Theorem C19_generated_offset_moves_each_vertex : forall qsqrt qcos qsin qacos qpi (self : Polygon2R) d,
+  let L := pg_vertices self in
+  ~ d == 0 -> Polygon2D_is_clockwise self = false -> (3 <= py_len L)%Z ->
+  (forall ip, In ip (py_enumerate L) -> Vector2D_op_eq (snd ip) (py_nth L (fst ip - 1)%Z (mkV2 0 0)) = false) ->
+  pg_vertices (Polygon2D_offset qsqrt qcos qsin qacos qpi self d)
+  = map (fun ip => Point2D_move (snd ip) (off_vec qsqrt qcos qsin qacos qpi L d (fst ip) (snd ip))) (py_enumerate L).
+Proof. exact offset_moves_each_vertex. Qed.
+Print Assumptions C19_generated_offset_moves_each_vertex.
+
+Theorem C19_generated_offset_vector_distances : forall (qsqrt qcos qsin : Q -> Q), Proper (Qeq ==> Qeq) qsqrt ->
+  forall (v1 v2 : V2) (a d : Q),
+  qsin (- a) == - qsin a -> qcos (- a) * qcos (- a) + qsin a * qsin a == 1 -> ~ qsin a == 0 ->
+  qsqrt (Vector2D_magnitude_squared v1) * qsqrt (Vector2D_magnitude_squared v1) == dot2 v1 v1 ->
+  ~ qsqrt (Vector2D_magnitude_squared v1) == 0 ->
+  forall mu, 0 < mu -> v2 =2= smul2 mu (rotm (qcos (- a)) (qsin a) (rotm (qcos (- a)) (qsin a) v1)) ->
+  let m := move_vec qsqrt qcos qsin v1 a d in
+  let r1 := qsqrt (Vector2D_magnitude_squared v1) in
+  det2 m v1 == d * r1 /\ det2 v2 m == d * (mu * r1) /\ (mu * r1) * (mu * r1) == dot2 v2 v2.
+Proof. intros. apply move_vec_distances; assumption. Qed.
+Print Assumptions C19_generated_offset_vector_distances.
+
 (* non-vacuity: a right-angle corner (half angle 45 deg is irrational, so use the 3-4-5 half angle), and a 10 x 3 wall *)
 Example C19_nonvacuous :
   (let m := offset_move (mkV2 1 0) (4 # 5) (3 # 5) 1 in det2 m (mkV2 1 0) == 1) /\
   cols (rects_ratio 10 3 (4 # 10) 2 (8 # 10) 3 0) = 3%Z /\
   layout_area (rects_ratio 10 3 (4 # 10) 2 (8 # 10) 3 0) == 12.
 Proof. vm_compute. repeat split; reflexivity. Qed.
+
+(* the hypotheses of C19_generated_offset_vector_distances are satisfiable: a 3-4-5 half angle at the unit vector (1,0) *)
+Example C19_generated_offset_hypotheses_satisfiable :
+  let qsqrt := fun _ : Q => 1 in let qcos := fun _ : Q => 4 # 5 in
+  let qsin := fun x : Q => if Qlt_bool x 0 then - (3 # 5) else 3 # 5 in
+  let v1 := mkV2 1 0 in let a := 1 in
+  let v2 := smul2 2 (rotm (qcos (- a)) (qsin a) (rotm (qcos (- a)) (qsin a) v1)) in
+  Proper (Qeq ==> Qeq) qsqrt /\ qsin (- a) == - qsin a /\ qcos (- a) * qcos (- a) + qsin a * qsin a == 1 /\ ~ qsin a == 0 /\
+  qsqrt (Vector2D_magnitude_squared v1) * qsqrt (Vector2D_magnitude_squared v1) == dot2 v1 v1 /\
+  det2 (move_vec qsqrt qcos qsin v1 a (1 # 2)) v1 == 1 # 2 /\ det2 v2 (move_vec qsqrt qcos qsin v1 a (1 # 2)) == 1.
+Proof.
+  cbv zeta. split; [intros x y _; reflexivity|]. vm_compute. repeat split; try reflexivity; try discriminate.
+Qed.
